@@ -107,7 +107,7 @@ func runC05(c *Ctx) {
 
 	// ---- C05.bounds
 	rule := "C05.bounds"
-	c.R.Rule(rule, "E5 in readBlock: every allocation whose size derives from a header field (both Uint32 fields of the frame header) is reachable only through the false edges of a lower-bound test (< 0) and of an upper-bound test (> constant limit) of that size; the limits are the documented constants")
+	c.R.Rule(rule, "E5 in readBlock: every allocation whose size derives from a header field (both Uint32 fields of the frame header) is reachable only through the false edges of a lower-bound test (< 0) and of an upper-bound test (> constant limit) of that size; the limits do not exceed the documented 128 MiB")
 	func() {
 		if len(sizes) < 2 {
 			c.R.Unk(rule, core.FuncName(rb), cfg, p.Pos(rb.Pos()), sprintf("%d header size fields found, expected 2", len(sizes)))
@@ -129,12 +129,23 @@ func runC05(c *Ctx) {
 					derived := func(v ssa.Value) bool {
 						return core.DependsOn(v, func(x ssa.Value) bool { return x == sz }, false)
 					}
+					limit := int64(0) // largest size any upper-bound test lets through
 					upper := core.CondEdges(rb, false, func(cond ssa.Value) (bool, bool) {
 						bo, ok := cond.(*ssa.BinOp)
 						if !ok {
 							return false, false
 						}
 						if k, okc := core.ConstInt(bo.Y); okc && k > 0 && derived(bo.X) {
+							switch bo.Op {
+							case token.GTR, token.LEQ:
+								if k > limit {
+									limit = k
+								}
+							case token.GEQ, token.LSS:
+								if k-1 > limit {
+									limit = k - 1
+								}
+							}
 							switch bo.Op {
 							case token.GTR, token.GEQ:
 								return true, true
@@ -164,8 +175,10 @@ func runC05(c *Ctx) {
 						c.R.Bad(rule, key, cfg, p.Pos(ms.Pos()), "an allocation sized by a frame header field is reachable without an upper-bound check: a corrupted or hostile frame requests up to 4 GiB")
 					case len(lower) == 0 || !core.OnlyViaEdges(rb, ms, lower):
 						c.R.Bad(rule, key, cfg, p.Pos(ms.Pos()), "an allocation sized by a frame header field is reachable without a `< 0` check (the size is int(uint32) minus a constant, and int is 32 bits on the pure-Go targets): make() panics")
+					case limit > 128<<20:
+						c.R.Bad(rule, key, cfg, p.Pos(ms.Pos()), sprintf("the upper-bound test lets a header size of %d through: the documented limit for frame sizes is 128 MiB (%d)", limit, 128<<20))
 					default:
-						c.R.Ok(rule, key, cfg, p.Pos(ms.Pos()), "0 <= size <= limit on every path to the allocation")
+						c.R.Ok(rule, key, cfg, p.Pos(ms.Pos()), sprintf("0 <= size <= %d (documented 128 MiB) on every path to the allocation", limit))
 					}
 				}
 			}
@@ -508,53 +521,7 @@ func runC05(c *Ctx) {
 		}
 	}()
 
-	// ---- C05.dst
-	rule = "C05.dst"
-	c.R.Rule(rule, "Writer.Compress sizes its output buffer from lz4.CompressBlockBound(len(src)) plus the header on every path (every method writes into the same buffer): a destination that can be smaller than the bound makes the block compressors report 0 bytes for incompressible input and an undecodable frame is emitted; the compressed length used for the frame comes from the compressor's result")
-	func() {
-		var sizeOK, found bool
-		for _, b := range wr.Blocks {
-			for _, in := range b.Instrs {
-				ms, ok := in.(*ssa.MakeSlice)
-				if !ok {
-					continue
-				}
-				found = true
-				isBound := func(v ssa.Value) bool {
-					_, ok := core.CallTo(v, func(f *types.Func) bool { return f.Name() == "CompressBlockBound" })
-					return ok
-				}
-				// every phi edge on the way must depend on the bound
-				var all func(v ssa.Value, d int) bool
-				all = func(v ssa.Value, d int) bool {
-					if d > 8 {
-						return false
-					}
-					if ph, ok := v.(*ssa.Phi); ok {
-						for _, e := range ph.Edges {
-							if !all(e, d+1) {
-								return false
-							}
-						}
-						return true
-					}
-					if bo, ok := v.(*ssa.BinOp); ok && bo.Op == token.ADD {
-						return all(bo.X, d+1) || all(bo.Y, d+1)
-					}
-					return isBound(v)
-				}
-				sizeOK = all(ms.Len, 0)
-			}
-		}
-		switch {
-		case !found:
-			c.R.Unk(rule, core.FuncName(wr), cfg, p.Pos(wr.Pos()), "output buffer allocation not found")
-		case !sizeOK:
-			c.R.Bad(rule, core.FuncName(wr), cfg, p.Pos(wr.Pos()), "the output buffer is not sized by CompressBlockBound(len(src)) on every path: with a smaller destination LZ4/LZ4HC return 0 for incompressible payloads and the frame cannot be decoded")
-		default:
-			c.R.Ok(rule, core.FuncName(wr), cfg, p.Pos(wr.Pos()), "len(Data) = CompressBlockBound(len(buf)) + header on every path")
-		}
-	}()
+	ruleCompressDst(c, p, "C05.dst")
 
 	// ---- C05.frame
 	ruleFrameLayout(c, p, "C05.frame", rb, wr)
@@ -674,4 +641,59 @@ func ruleFrameLayout(c *Ctx, p *core.Program, rule string, rb, wr *ssa.Function)
 	} else {
 		c.R.Bad(rule, "overflow-guard", cfg, p.Pos(wr.Pos()), "the compressed size can overflow uint32 when stored")
 	}
+}
+
+// ruleCompressDst (C05.dst / C02.dst / C09.dst): the compressor's destination is large enough for every method.
+func ruleCompressDst(c *Ctx, p *core.Program, rule string) {
+	cfg := p.Cfg.Name
+	wr := p.Method(core.PkgCompress, "Writer", "Compress")
+	if !c.must(p, "(*compress.Writer).Compress", wr != nil) {
+		return
+	}
+	c.R.Rule(rule, "Writer.Compress sizes its output buffer from lz4.CompressBlockBound(len(src)) plus the header on every path (every method writes into the same buffer): a destination that can be smaller than the bound makes the block compressors report 0 bytes for incompressible input and an undecodable frame is emitted; the compressed length used for the frame comes from the compressor's result")
+	func() {
+		var sizeOK, found bool
+		for _, b := range wr.Blocks {
+			for _, in := range b.Instrs {
+				ms, ok := in.(*ssa.MakeSlice)
+				if !ok {
+					continue
+				}
+				found = true
+				isBound := func(v ssa.Value) bool {
+					_, ok := core.CallTo(v, func(f *types.Func) bool { return f.Name() == "CompressBlockBound" })
+					return ok
+				}
+				// every phi edge on the way must depend on the bound
+				var all func(v ssa.Value, d int) bool
+				all = func(v ssa.Value, d int) bool {
+					if d > 8 {
+						return false
+					}
+					if ph, ok := v.(*ssa.Phi); ok {
+						for _, e := range ph.Edges {
+							if !all(e, d+1) {
+								return false
+							}
+						}
+						return true
+					}
+					if bo, ok := v.(*ssa.BinOp); ok && bo.Op == token.ADD {
+						return all(bo.X, d+1) || all(bo.Y, d+1)
+					}
+					return isBound(v)
+				}
+				sizeOK = all(ms.Len, 0)
+			}
+		}
+		switch {
+		case !found:
+			c.R.Unk(rule, core.FuncName(wr), cfg, p.Pos(wr.Pos()), "output buffer allocation not found")
+		case !sizeOK:
+			c.R.Bad(rule, core.FuncName(wr), cfg, p.Pos(wr.Pos()), "the output buffer is not sized by CompressBlockBound(len(src)) on every path: with a smaller destination LZ4/LZ4HC return 0 for incompressible payloads and the frame cannot be decoded")
+		default:
+			c.R.Ok(rule, core.FuncName(wr), cfg, p.Pos(wr.Pos()), "len(Data) = CompressBlockBound(len(buf)) + header on every path")
+		}
+	}()
+
 }
